@@ -175,10 +175,11 @@ class MetaUnionRef(type):
         return info
 
     def _to_buffer(cls, buffer, offset, value, info=None):
-        if isinstance(value, cls):  # binary copy
-            buffer.update_from_xbuffer(
-                offset, value._buffer, value._offset, value._size
-            )
+        if isinstance(value, cls):
+            # a union reference object stands for the object it denotes (its
+            # bytes hold an offset relative to its own position and cannot be
+            # copied to another place)
+            cls._to_buffer(buffer, offset, value.get())
         else:
             if value is None:
                 xobj = None
